@@ -197,6 +197,10 @@ def _vectors(ctx):
             for v in rng.sample(strata[key], min(8, len(strata[key]))):
                 vecs.append(v)
                 chosen.add(jdump(v))
+        for v in allv:                        # long retry chains: all of them, always
+            if v["max"] > 3 and jdump(v) not in chosen:
+                vecs.append(v)
+                chosen.add(jdump(v))
         rest = [v for v in allv if jdump(v) not in chosen]
         vecs += rng.sample(rest, max(0, k - len(vecs)))
     ctx.log("%d scenarios exported by TLC, %d run" % (len(allv), len(vecs)))
